@@ -3,6 +3,7 @@ import PycfModel.Model.Glob
 import PycfModel.Model.Actions
 import PycfModel.Model.Expand
 import PycfModel.Model.Catalogue
+import PycfModel.Model.Resolver
 /-
 Line protocol driver: one JSON operation per input line, one JSON result per output line.
 Executes the implementation models (I); proves nothing.
@@ -66,6 +67,19 @@ def runExpand (j : Json) : Except String Json := do
     | _ => .error "stmts missing"
   | _ => .error s!"unknown api {api}"
 
+def objMembers (v : J) : Except String (List (String × J)) :=
+  match v with
+  | .obj kvs => pure kvs
+  | .null => pure []
+  | _ => .error "object expected"
+
+def envOf (j : Json) : Except String Resolver.Env := do
+  let params ← objMembers (← getJ j "params")
+  let mappings ← objMembers ((← getJ? j "mappings").getD (.obj []))
+  let conds ← objMembers ((← getJ? j "conds").getD (.obj []))
+  let cs := conds.filterMap fun (k, v) => match v with | .bool b => some (k, b) | _ => none
+  pure ⟨params, mappings, cs⟩
+
 def runOp (j : Json) : Except String Json := do
   let op ← getStr j "op"
   match op with
@@ -76,6 +90,19 @@ def runOp (j : Json) : Except String Json := do
     let ci ← getBool j "ci"
     let r := if ci then Glob.gmatchCI p.toList s.toList else Glob.gmatchCS p.toList s.toList
     pure (Json.mkObj [("match", .bool r)])
+  | "resolve" =>
+    let env ← envOf j
+    let e ← getJ j "expr"
+    match Resolver.Spec.resolve env e with
+    | some v => pure (Json.mkObj [("value", ofJ v)])
+    | none => pure (Json.mkObj [("outside_domain", .bool true)])
+  | "tokens" =>
+    let t ← getStr j "text"
+    let toks := Resolver.tokens t.toList
+    pure (Json.mkObj [("tokens", .arr (toks.map fun t => match t with
+      | .lit c => Json.str (String.ofList [c])
+      | .var n => Json.mkObj [("var", .str (String.ofList n))]
+      | .esc b => Json.mkObj [("esc", .str (String.ofList b))]).toArray)])
   | "expand" => runExpand j
   | "xexpand" =>
     let t ← getJ j "tree"
